@@ -1,5 +1,6 @@
 import PfModel.DriverVal
-import PfModel.Lemmas.MapRefusal
+import PfModel.Lemmas.MapDescRet
+import PfModel.Model.MapChecked
 /-! Driver for the "never refused" clause of C01 (`conforms`): evaluates `PF.C01.Conforms` — the predicate
     `C01_never_refused` is about — and `runMap` on the same request as `map.run`. -/
 open Lean PF PF.Drv PF.Map
@@ -35,13 +36,26 @@ def handle (m : String) (a : Json) : R Json := do
       ("inputsTyped", PF.C01.valuesTyped Γ inputs), ("defaultsTyped", PF.C01.valuesTyped Γ (pdefaults fs)),
       ("funcsTyped", fs.all (PF.C01.funcTyped Γ)), ("constructible", PF.C01.constructible Γ fs),
       ("consistentAxes", PF.C01.consistentAxes fs)]
+    -- round 9: the syntactic class `InClass` (Lemmas/MapDescClass.lean), clause by clause, and the residual `ReturnsDeclared`
+    -- (`C01_desc_residual`: inClass ∧ requestOK → descOK = returnsDeclared; `C01_never_refused_plain`: inClass ∧ noInternal → ok = requestOK)
+    let classClauses : List (String × Bool) := [
+      ("functionNamesUnique", PF.C01.nodupB (fs.map (·.name))), ("outputNamesUnique", PF.C01.nodupB (allOutputs fs)),
+      ("consistentAxes", PF.C01.consistentAxes fs), ("funcStatic", fs.all PF.C01.funcStatic),
+      ("inputKeysUnique", PF.C01.nodupB (akeys inputs)), ("arraysWellFormed", inputs.all (fun kv => PF.C01.wfArr kv.2)),
+      ("mappedDefaultsAgree", (pdefaults fs).all (fun kv => !(mapspecNames fs).contains kv.1
+          || (PF.C01.wfArr kv.2 && (alookup (inputs ++ pdefaults fs) kv.1).bind shapeOf == shapeOf kv.2)))]
     let (ok, err) := match runMap fs inputs internal with
       | .error e => (false, jStr (errName e))
       | .ok _ => (true, Json.null)
     -- `Conforms = RequestOK && DescOK` (`C01_conforms_split`); `C01_answered_request_ok`: ok → requestOK
     return jObj [("conforms", jBool (PF.C01.Conforms fs inputs internal)), ("ok", jBool ok), ("err", err),
                  ("requestOK", jBool (PF.C01.RequestOK fs inputs internal)), ("descOK", jBool (PF.C01.DescOK fs inputs internal)),
-                 ("failed", jList jStr ((clauses.filter (!·.2)).map (·.1)))]
+                 ("failed", jList jStr ((clauses.filter (!·.2)).map (·.1))),
+                 ("inClass", jBool (PF.C01.InClass fs inputs)), ("classFailed", jList jStr ((classClauses.filter (!·.2)).map (·.1))),
+                 ("returnsDeclared", jBool (PF.C01.ReturnsDeclared fs inputs internal)), ("noInternal", jBool (PF.C01.NoInternal fs)),
+                 ("retSyntactic", jBool (PF.C01.RetSyntactic fs internal)),
+                 -- `prepare_run` + `run_map` (Model/MapChecked.lean; `C01_checked_iff`: checkedOk = consistentAxes ∧ ok)
+                 ("checkedOk", jBool (mapChecked fs inputs internal).toOption.isSome)]
   | _ => .error s!"unknown entry {m}"
 
 def main : IO Unit := loop handle
